@@ -11,6 +11,30 @@ ALL = [f"C{n:02d}" for n in range(1, 21)]
 
 # property -> (technique, level text, level note, design ref)
 CHECKS = {
+    "C01": (
+        "model-free invariant hook evaluated at every client-call boundary of generated call histories (bounded-exhaustive prelude + random), over everything reachable from the object pool",
+        "Runtime monitor: after every op of every history (return or raise) the relation l in v.links <=> v in l.vertices and the no-duplicate rule are evaluated through the public accessors on all reachable objects. Histories: every op x every argument aliasing from 9 base states to depth 2/3, plus thousands of random 40-120-op histories on 3-5 vertices.",
+        "Trusted: 30-line invariant function; identity semantics of vertices. Only client-call boundaries are quiescent points.",
+        "DESIGN.md 4/C01",
+    ),
+    "C02": (
+        "model-free symmetry/duplicate invariants + lock-step membership-order model + raise-and-unchanged monitor for non-member removals, after every op of generated histories",
+        "Runtime monitor over histories of the four membership calls and both constructors (duplicates, nested and self-membership): symmetry and duplicate-freedom on everything reachable, member/universes order against the lock-step model, non-member removal must raise with the whole snapshot unchanged.",
+        "Trusted: invariant functions and the membership part of egverif/model.py.",
+        "DESIGN.md 4/C02",
+    ),
+    "C03": (
+        "lock-step executable reference model: full observable snapshot and return value compared after every op of generated histories",
+        "Runtime monitor: the real library and a ~300-line plain-data model replay the same histories; after each op the complete snapshot (ordered links/universes/ends/members, laws bindings) and the return value must agree, raising ops must leave the snapshot unchanged. Ops with documented-open effects are never issued.",
+        "Trusted: egverif/model.py (written from the statement/docstrings); snapshot via public accessors only.",
+        "DESIGN.md 4/C03",
+    ),
+    "C19": (
+        "model-free bijection invariant + must-succeed/must-take-effect monitor + lock-step frame model after every assignment; read-back/immutability probes of the rule attributes",
+        "Runtime monitor over histories of laws/applies_to assignments (either side, None, law sets in use elsewhere) and universe constructions: u.laws is L <=> L.applies_to is u on everything reachable after every op; every assignment must succeed and take effect; only previous partners are detached. Rule attributes: read-back, AttributeError on assignment, proxy immutability, isolation from the input dict.",
+        "Trusted: invariant function, laws part of the model. Law sets are constructed without applies_to.",
+        "DESIGN.md 4/C19",
+    ),
     "C04": (
         "decision-table oracle on observed link state, evaluated on every neighbors() call of an exhaustive one-/two-link enumeration plus random multigraphs; FORWARD/BACKWARD count corollary on real outputs",
         "Runtime monitor: every neighbors() call issued by the workload is compared (identity and order) with a 40-line decision table computed from the observed v.links/type/ends. All 8 link classes x 3 positions x 3 directions x 3 unknown modes x 7 filters are enumerated on one- and two-link graphs, then random mixed multigraphs. Held = no disagreement on the calls observed.",
